@@ -13,13 +13,29 @@ Subset: a slice of one function body made of
 Expressions: integer and character literals, enum constants (-> c_NAME of Consts.v), variables, `p->field` through a field
 map, unary ! - *, binary || && == != < <= > >= + - * / %, ?: (SUPERLU_MAX/MIN expand to it), casts and parentheses,
 calls through per-name handlers, array reads `a[i]` of arrays declared as functions.
+Stores `a[i] = e;` to arrays on cfg["ignore_stores"] are dropped (explicitly, and only while the array is not read afterwards);
+an assignment to a variable on cfg["override"] takes the configured input instead of its right-hand side (thresh = u * pivmax ==> thr);
+with cfg["local_temps"] a variable first assigned inside an if / a loop body is local to it (rtemp).
+Also (added for the allocator arithmetic of p?memory.c): `g.field` on a GLOBAL struct variable as a mutable cell (cfg "globals"),
+one tracked base pointer (cfg "base_ptr") with `char *` arithmetic as offsets relative to it (Gallina type `cptr` of
+coq/C2GalLib.v: None = NULL, Some off = base + off), casts by castKind (NullToPointer, PointerToIntegral through the base
+address parameter, BitCast between pointer types; IntegralToPointer is refused), bit operators & | ^ ~ << >>, forward
+`goto L;` to a label of an enclosing block (the path continues with the statements after the label), lock / unlock calls
+that open and close a critical section (cfg "lock": guarded cells may only be touched inside), enum constants through a name
+map (cfg "enums").
 Everything else stops the translation with an error (reported by the check as a broken translator), never silently skipped.
+The clang AST is built without -DSLU_MT_VERIF (CLANG_FLAGS): the SLU_VERIF_EV hook statements are null statements.
 
 Translation scheme: static single assignment with `let`; an `if` whose branches only assign becomes
 `let '(x1, .., xk) := if c then (..) else (..) in rest` over the variables assigned in either branch; an `if` with a branch
 that returns duplicates the rest into the other branch; a for loop becomes `fold_left` over `zrange a b` with the tuple of
-the variables its body assigns as the state.  C truth values: comparisons and logical operators give bool; an integer used as
+the variables its body assigns as the state (with cfg["lift_loops"] the body is a definition of its own, so that a tie proof can
+state the loop-body correspondence as a lemma; with cfg["state_order"] tuples list variables in declaration order).  `zrange` is
+defined in the hand-written coq/C2GalLib.v.  C truth values: comparisons and logical operators give bool; an integer used as
 a condition becomes `negb (e =? 0)`; a bool used as an integer becomes `(if e then 1 else 0)`.
+With cfg "dup_ifs" every `if` is translated by duplicating the rest of the path into both branches (no joins): the result is a
+decision tree whose leaves are the final values; locals declared or first assigned inside a branch need no value before the `if`.
+Expression types: 'Z' integer, 'B' bool, 'P' pointer (cptr).
 """
 import json, subprocess, sys, os
 
@@ -28,6 +44,16 @@ CLANG_FLAGS = ["-fsyntax-only", "-w", "-D__PTHREAD", "-DAdd_", "-I/repo/SRC"]
 
 class Unsupported(Exception):
     pass
+
+
+GALLINA_RESERVED = set("""as at cofix else end exists exists2 fix for forall fun if IF in let match mod Prop return Set then Type
+using where with Definition Lemma Theorem Fixpoint Inductive Record Section End Variable Hypothesis Axiom Parameter Proof Qed
+Z nat bool unit tt true false None Some pair fst snd negb andb orb cptr pnull pbase padd paddr peqb fold_left zrange""".split())
+
+
+def gallina_ident(name):
+    """a C identifier as a Gallina binder: reserved words and the names the generated code itself uses get a trailing underscore"""
+    return name + "_" if name in GALLINA_RESERVED else name
 
 
 def load_function(cfile, fname, incdir=None, extra=()):
@@ -52,6 +78,38 @@ def load_function(cfile, fname, incdir=None, extra=()):
     raise Unsupported("no definition of %s in %s" % (fname, cfile))
 
 
+def int_constants(cfile, names, incdir=None, extra=()):
+    """values of integer constant expressions (enum constants, integer macros) visible at the end of `cfile`, evaluated by
+    clang itself: {name: int}.  A name that is not an integer constant expression there makes clang fail -> Unsupported."""
+    import tempfile
+    flags = list(CLANG_FLAGS)
+    if incdir:
+        flags = [f if not f.startswith("-I") else "-I" + incdir for f in flags]
+    with tempfile.TemporaryDirectory() as d:
+        probe = os.path.join(d, "probe.c")
+        with open(probe, "w") as f:
+            f.write('#include "%s"\nenum { %s };\n' % (os.path.abspath(cfile), ", ".join("c2gal_probe_%s = (%s)" % (x, x) for x in names)))
+        cmd = ["clang"] + flags + list(extra) + ["-Xclang", "-ast-dump=json", "-Xclang", "-ast-dump-filter=c2gal_probe_", probe]
+        p = subprocess.run(cmd, stdout=subprocess.PIPE, stderr=subprocess.PIPE, universal_newlines=True, timeout=120)
+    if p.returncode != 0:
+        raise Unsupported("clang cannot evaluate %s at the end of %s: %s" % (", ".join(names), cfile, p.stderr[-300:]))
+    txt, dec, i, out = p.stdout, json.JSONDecoder(), 0, {}
+    while i < len(txt):
+        while i < len(txt) and txt[i].isspace():
+            i += 1
+        if i >= len(txt):
+            break
+        o, i = dec.raw_decode(txt, i)
+        if o.get("kind") == "EnumConstantDecl" and o.get("name", "").startswith("c2gal_probe_"):
+            v = [c.get("value") for c in o.get("inner", []) if c.get("kind") == "ConstantExpr"]
+            if v and v[0] is not None:
+                out[o["name"][len("c2gal_probe_"):]] = int(v[0])
+    for x in names:
+        if x not in out:
+            raise Unsupported("no value for the constant %s in %s" % (x, cfile))
+    return out
+
+
 def strip(n):
     while n.get("kind") in ("ImplicitCastExpr", "ParenExpr", "CStyleCastExpr", "ConstantExpr"):
         n = n["inner"][0]
@@ -68,34 +126,114 @@ class Tr:
          calls    {callee: handler(tr, args_nodes, env) -> (str, ty)}
          ignore_calls  set of callee names whose call statements are dropped (no effect on the translated variables)
          override {var: (gallina_term, ty)}            an assignment to var takes this value instead of the C right-hand side
-         zero_float  True: floating literals 0.0 are the integer 0 (scaled-magnitude models)"""
+         zero_float  True: floating literals 0.0 are the integer 0 (scaled-magnitude models)
+         arrays values may also be handlers  h(tr, index_node, env) -> (str, ty)   (e.g. inv_perm_r[jcol] ==> the input oldrow)
+         ignore_stores  set of array names: a statement `a[i] = e;` is dropped (the translated variables do not depend on it).
+                      Sound only while `a` is not READ afterwards: after a dropped store every later read of `a` on the same
+                      path (and every read of `a` anywhere in a loop body that stores to it) stops the translation.
+         local_temps  True: a variable that has no value before an if / a loop and is assigned inside it is local to that
+                      statement (it is not part of the join tuple / loop state and has no value afterwards: a later read before a
+                      new assignment stops the translation).  Without the key such an assignment stops the translation.
+         state_order  list of C variable names (see decl_order): the variables of join tuples and loop states are listed in this
+                      order instead of the order of their first assignment (a reordering of statements keeps the tuple shape)
+         lift_loops   name prefix: every for-loop body becomes a separate definition  <prefix>_loop<k> <free variables> st_ i
+                      (collected in tr.lifted, to be emitted before the main definition); needs
+         params       [(gallina_name, type_string)] the binders of the generated definition (candidates for free variables)
+         globals  {global_struct_var: set of field names}   g.f is the mutable cell named "g.f" (give its start value in inputs["g.f"];
+                                                         read its final value from env["g.f"] in on_return / final)
+         base_ptr {"g.f" | var: gallina name of its ADDRESS (a Z)}  the one tracked base pointer: reading it gives `pbase` (offset 0);
+                                                         `(char*)p + k` is `padd p k`, `(long long)p` is `paddr <address> p`; it cannot be assigned
+         enums    {enum constant: gallina term}          (default: c_NAME of Consts.v)
+         lock     {"acquire": set of callees, "release": set of callees, "object": ("g", "f") or None, "guards": set of cell names}
+                                                         acquire / release calls (argument `&g.f` when object is given) open / close a
+                                                         critical section; a guarded cell read or written outside one stops the translation;
+                                                         env["#lock"] is present while the lock is held (on_return / final can refuse it)
+         dup_ifs  True: every if duplicates the rest of the path into its branches (decision tree, no joins)"""
 
     def __init__(self, cfg):
         self.cfg = cfg
         self.n = 0
         self.alias = {}
+        self.dirty = set()      # arrays with a dropped store on the path translated so far
+        self.lifted = []        # [(name, text)] loop bodies lifted into definitions
+        self.lets = {}          # gallina name of every let-bound / loop-bound variable -> type
+        self.labels = {}      # label declId -> continuation (env -> term) of the statements from the label on
+        self.gorder = {}       # node id of GotoStmt / LabelStmt -> position in a preorder walk (forward gotos only)
 
-    def fresh(self, v):
+    def fresh(self, v, ty="Z"):
         self.n += 1
-        return "%s_%d" % (v, self.n)
+        nm = "%s_%d" % (v, self.n)
+        self.lets[nm] = ty
+        return nm
+
+    def order(self, vs):
+        so = self.cfg.get("state_order")
+        if not so:
+            return vs
+        pos = {v: i for i, v in enumerate(so)}
+        return sorted(vs, key=lambda v: (pos.get(v, len(so)), vs.index(v)))
 
     # ------------------------------------------------------------------ expressions
     def toB(self, et):
         e, t = et
+        if t == "P":
+            return "(negb (peqb %s pnull))" % e
         return e if t == "B" else "(negb (%s =? 0))" % e
 
     def toZ(self, et):
         e, t = et
+        if t == "P":
+            raise Unsupported("a pointer used as an integer without a cast")
         return e if t == "Z" else "(if %s then 1 else 0)" % e
 
+    def guard(self, name, env, what):
+        lk = self.cfg.get("lock")
+        if lk and name in lk.get("guards", ()) and "#lock" not in env:
+            raise Unsupported("%s of '%s' outside the critical section" % (what, name))
+
+    def gcell(self, n):
+        """cell name "g.f" of a MemberExpr `g.f` on a declared global struct variable, or None"""
+        if n.get("kind") != "MemberExpr" or n.get("isArrow"):
+            return None
+        base = strip(n["inner"][0])
+        if base.get("kind") != "DeclRefExpr":
+            return None
+        g = base["referencedDecl"]["name"]
+        nm = "%s.%s" % (g, n["name"])
+        if n["name"] in self.cfg.get("globals", {}).get(g, ()) or nm in self.cfg.get("base_ptr", {}):
+            return nm
+        return None
+
+    def is_charp(self, n):
+        q = n.get("type", {}).get("qualType", "")
+        return q.replace("const ", "").replace("unsigned ", "").replace("signed ", "").strip() in ("char *",)
+
     def var(self, name, env):
+        self.guard(name, env, "read")
+        if name in self.cfg.get("base_ptr", {}):
+            return ("pbase", "P")
         if name in env:
             return env[name]
         raise Unsupported("variable '%s' is read before the translated slice assigns it and is not declared as an input" % name)
 
     def ex(self, n, env):
         k = n.get("kind")
-        if k in ("ImplicitCastExpr", "ParenExpr", "CStyleCastExpr", "ConstantExpr"):
+        if k in ("ImplicitCastExpr", "CStyleCastExpr"):
+            ck = n.get("castKind")
+            if ck == "NullToPointer":
+                return ("pnull", "P")
+            if ck == "IntegralToPointer":
+                raise Unsupported("cast of an integer to a pointer")
+            if ck == "PointerToIntegral":
+                e = self.ex(n["inner"][0], env)
+                bp = self.cfg.get("base_ptr", {})
+                if e[1] != "P" or len(bp) != 1:
+                    raise Unsupported("cast of a pointer to an integer without a tracked base pointer")
+                return ("(paddr %s %s)" % (list(bp.values())[0], e[0]), "Z")
+            if ck == "PointerToBoolean":
+                return self.toB(self.ex(n["inner"][0], env)), "B"
+            return self.ex(n["inner"][0], env)
+        if k in ("ParenExpr", "ConstantExpr"):
             return self.ex(n["inner"][0], env)
         if k == "IntegerLiteral":
             return (n["value"], "Z")
@@ -108,8 +246,10 @@ class Tr:
         if k == "DeclRefExpr":
             rd = n["referencedDecl"]
             if rd["kind"] == "EnumConstantDecl":
-                return ("c_" + rd["name"], "Z")
+                return (self.cfg.get("enums", {}).get(rd["name"], "c_" + rd["name"]), "Z")
             return self.var(rd["name"], env)
+        if k == "MemberExpr" and self.gcell(n):
+            return self.var(self.gcell(n), env)
         if k == "MemberExpr":
             base = strip(n["inner"][0])
             if base.get("kind") != "DeclRefExpr":
@@ -123,8 +263,14 @@ class Tr:
         if k == "ArraySubscriptExpr":
             base = strip(n["inner"][0])
             if base.get("kind") == "DeclRefExpr" and base["referencedDecl"]["name"] in self.cfg.get("arrays", {}):
-                return ("(%s %s)" % (self.cfg["arrays"][base["referencedDecl"]["name"]], self.toZ(self.ex(n["inner"][1], env))), "Z")
-            raise Unsupported("array read of an undeclared array")
+                an = base["referencedDecl"]["name"]
+                if an in self.dirty:
+                    raise Unsupported("array '%s' is read after a store to it was dropped (ignore_stores)" % an)
+                h = self.cfg["arrays"][an]
+                if callable(h):
+                    return h(self, n["inner"][1], env)
+                return ("(%s %s)" % (h, self.toZ(self.ex(n["inner"][1], env))), "Z")
+            raise Unsupported("array read of an undeclared array%s" % (" '%s'" % base["referencedDecl"]["name"] if base.get("kind") == "DeclRefExpr" else ""))
         if k == "UnaryOperator":
             op = n["opcode"]
             if op == "!":
@@ -133,6 +279,8 @@ class Tr:
                 return ("(- %s)" % self.toZ(self.ex(n["inner"][0], env)), "Z")
             if op == "+":
                 return self.ex(n["inner"][0], env)
+            if op == "~":
+                return ("(Z.lnot %s)" % self.toZ(self.ex(n["inner"][0], env)), "Z")
             if op == "*":
                 b = strip(n["inner"][0])
                 if b.get("kind") == "DeclRefExpr" and b["referencedDecl"]["name"] in self.cfg.get("cells", ()):
@@ -144,11 +292,27 @@ class Tr:
             a, b = n["inner"]
             if op in ("||", "&&"):
                 return ("(%s %s %s)" % (self.toB(self.ex(a, env)), op, self.toB(self.ex(b, env))), "B")
+            ea, eb = self.ex(a, env), self.ex(b, env)
+            if ea[1] == "P" or eb[1] == "P":
+                if op in ("==", "!=") and ea[1] == eb[1]:
+                    t = "(peqb %s %s)" % (ea[0], eb[0])
+                    return (t if op == "==" else "(negb %s)" % t, "B")
+                if op == "+" and eb[1] == "P" and ea[1] != "P":
+                    a, b, ea, eb = b, a, eb, ea
+                if op in ("+", "-") and ea[1] == "P" and eb[1] != "P":
+                    if not self.is_charp(a):
+                        raise Unsupported("pointer arithmetic on '%s' (only char * : element size 1)" % a.get("type", {}).get("qualType"))
+                    kz = self.toZ(eb)
+                    return ("(padd %s %s)" % (ea[0], kz if op == "+" else "(- %s)" % kz), "P")
+                raise Unsupported("binary operator %s on a pointer" % op)
             cmpop = {"==": "=?", "<": "<?", "<=": "<=?", ">": ">?", ">=": ">=?"}
             if op in cmpop:
-                return ("(%s %s %s)" % (self.toZ(self.ex(a, env)), cmpop[op], self.toZ(self.ex(b, env))), "B")
+                return ("(%s %s %s)" % (self.toZ(ea), cmpop[op], self.toZ(eb)), "B")
             if op == "!=":
-                return ("(negb (%s =? %s))" % (self.toZ(self.ex(a, env)), self.toZ(self.ex(b, env))), "B")
+                return ("(negb (%s =? %s))" % (self.toZ(ea), self.toZ(eb)), "B")
+            bit = {"&": "Z.land", "|": "Z.lor", "^": "Z.lxor", "<<": "Z.shiftl", ">>": "Z.shiftr"}
+            if op in bit:
+                return ("(%s %s %s)" % (bit[op], self.toZ(ea), self.toZ(eb)), "Z")
             ar = {"+": "+", "-": "-", "*": "*"}
             if op in ar:
                 return ("(%s %s %s)" % (self.toZ(self.ex(a, env)), ar[op], self.toZ(self.ex(b, env))), "Z")
@@ -178,14 +342,48 @@ class Tr:
         n = strip(n)
         if n.get("kind") == "DeclRefExpr":
             return n["referencedDecl"]["name"]
+        if n.get("kind") == "MemberExpr":
+            g = self.gcell(n)
+            if g in self.cfg.get("base_ptr", {}):
+                raise Unsupported("assignment to the tracked base pointer '%s'" % g)
+            return g
         if n.get("kind") == "UnaryOperator" and n["opcode"] == "*":
             b = strip(n["inner"][0])
             if b.get("kind") == "DeclRefExpr" and b["referencedDecl"]["name"] in self.cfg.get("cells", ()):
                 return "*" + b["referencedDecl"]["name"]
         return None
 
+    def store_target(self, n):
+        """`a[i] = e` with a on the ignore_stores list: the name a, else None"""
+        if n.get("kind") == "BinaryOperator" and n.get("opcode") == "=":
+            l = strip(n["inner"][0])
+            if l.get("kind") == "ArraySubscriptExpr":
+                b = strip(l["inner"][0])
+                if b.get("kind") == "DeclRefExpr" and b["referencedDecl"]["name"] in self.cfg.get("ignore_stores", ()):
+                    return b["referencedDecl"]["name"]
+        return None
+
+    def pure(self, n):
+        """no assignment, ++/--, call anywhere inside the expression"""
+        k = n.get("kind")
+        if k in ("CallExpr", "CompoundAssignOperator") or (k == "BinaryOperator" and n.get("opcode") in ("=", ",")) \
+                or (k == "UnaryOperator" and n.get("opcode") in ("++", "--")):
+            return False
+        return all(self.pure(c) for c in n.get("inner", []) if c)
+
+    def stores_in(self, n, acc):
+        a = self.store_target(n)
+        if a:
+            acc.add(a)
+        for c in n.get("inner", []):
+            if c:
+                self.stores_in(c, acc)
+        return acc
+
     def assigned(self, n, acc):
         k = n.get("kind")
+        if self.store_target(n):
+            return
         if k in ("BinaryOperator", "CompoundAssignOperator") and (n["opcode"] == "=" or k == "CompoundAssignOperator"):
             v = self.lhs_name(n["inner"][0])
             if v is None:
@@ -206,7 +404,7 @@ class Tr:
                     if d["name"] not in acc:
                         acc.append(d["name"])
             return
-        if k in ("CompoundStmt", "IfStmt", "ForStmt"):
+        if k in ("CompoundStmt", "IfStmt", "ForStmt", "LabelStmt"):
             for c in n.get("inner", []):
                 if c:
                     if k == "IfStmt" and c is n["inner"][0]:
@@ -214,7 +412,7 @@ class Tr:
                     self.assigned(c, acc)
 
     def may_return(self, n):
-        if n.get("kind") == "ReturnStmt":
+        if n.get("kind") in ("ReturnStmt", "GotoStmt"):
             return True
         return any(self.may_return(c) for c in n.get("inner", []) if c)
 
@@ -234,7 +432,10 @@ class Tr:
     def assign(self, v, et, env, rest):
         if v in self.cfg.get("override", {}):
             et = self.cfg["override"][v]
-        nm = self.fresh(v.replace("*", ""))
+        self.guard(v, env, "write")
+        if v in self.cfg.get("base_ptr", {}):
+            raise Unsupported("assignment to the tracked base pointer '%s'" % v)
+        nm = self.fresh(v.replace("*", "").replace(".", "_"), et[1])
         env2 = dict(env)
         env2[v] = (nm, et[1])
         return "let %s := %s in\n%s" % (nm, et[0], rest(env2))
@@ -242,7 +443,44 @@ class Tr:
     def seq(self, stmts, env, k):
         if not stmts:
             return k(env)
+        for j, s in enumerate(stmts):
+            if s.get("kind") == "LabelStmt":
+                self.labels[s.get("declId")] = (lambda j: lambda e: self.seq(stmts[j:], e, k))(j)
         return self.stmt(stmts[0], env, lambda e: self.seq(stmts[1:], e, k))
+
+    def number(self, n):
+        """preorder positions of the goto and label statements of a function body"""
+        if n.get("kind") in ("GotoStmt", "LabelStmt"):
+            self.gorder[n["id"]] = len(self.gorder)
+            if n.get("kind") == "LabelStmt":
+                self.gorder["L" + n.get("declId", "")] = self.gorder[n["id"]]
+        for c in n.get("inner", []):
+            if c:
+                self.number(c)
+
+    def lock_call(self, name, n, env):
+        """None when `name` is not a lock call, else the environment after it"""
+        lk = self.cfg.get("lock")
+        if not lk or name not in (set(lk.get("acquire", ())) | set(lk.get("release", ()))):
+            return None
+        obj = lk.get("object")
+        if obj:
+            args = n["inner"][1:]
+            a = strip(args[0]) if len(args) == 1 else {}
+            m = strip(a["inner"][0]) if a.get("kind") == "UnaryOperator" and a.get("opcode") == "&" else {}
+            b = strip(m["inner"][0]) if m.get("kind") == "MemberExpr" and not m.get("isArrow") else {}
+            if not (m.get("name") == obj[1] and b.get("kind") == "DeclRefExpr" and b["referencedDecl"]["name"] == obj[0]):
+                raise Unsupported("%s on something that is not &%s.%s" % (name, obj[0], obj[1]))
+        env2 = dict(env)
+        if name in lk.get("acquire", ()):
+            if "#lock" in env:
+                raise Unsupported("%s while the lock is held" % name)
+            env2["#lock"] = ("true", "B")
+        else:
+            if "#lock" not in env:
+                raise Unsupported("%s while the lock is not held" % name)
+            del env2["#lock"]
+        return env2
 
     def stmt(self, n, env, k):
         kind = n.get("kind")
@@ -266,9 +504,19 @@ class Tr:
                 return self.assign(d["name"], self.ex(d["inner"][0], e), e, lambda e2: go(i + 1, e2))
             return go(0, env)
         if kind == "BinaryOperator" and n["opcode"] == "=":
+            st = self.store_target(n)
+            if st:
+                if not (self.pure(strip(n["inner"][0])["inner"][1]) and self.pure(n["inner"][1])):
+                    raise Unsupported("dropped store to '%s' has a side effect in its index or value" % st)
+                self.dirty.add(st)
+                return k(env)
             v = self.lhs_name(n["inner"][0])
             if v is None:
                 raise Unsupported("assignment to something that is not a scalar variable or a declared cell")
+            if v in self.cfg.get("override", {}):
+                if not self.pure(n["inner"][1]):
+                    raise Unsupported("overridden assignment to '%s' has a side effect" % v)
+                return self.assign(v, self.cfg["override"][v], env, k)
             r = strip(n["inner"][1])
             if r.get("kind") == "MemberExpr" and r.get("name") == self.cfg.get("alias_field", "Store"):
                 b = strip(r["inner"][0])
@@ -287,33 +535,64 @@ class Tr:
         if kind == "CallExpr":
             cal = strip(n["inner"][0])
             name = cal.get("referencedDecl", {}).get("name")
+            e2 = self.lock_call(name, n, env)
+            if e2 is not None:
+                return k(e2)
             if name in self.cfg.get("ignore_calls", ()):
                 return k(env)
             raise Unsupported("call statement of '%s' (not on the ignore list)" % name)
         if kind == "ReturnStmt":
             val = self.ex(n["inner"][0], env) if n.get("inner") else None
             return self.cfg["on_return"](self, env, val)
+        if kind == "LabelStmt":
+            return self.stmt(n["inner"][0], env, k)
+        if kind == "GotoStmt":
+            tgt = n.get("targetLabelDeclId")
+            if not self.gorder:
+                raise Unsupported("goto (the function body was not numbered: use translate_slice)")
+            if self.gorder.get("L" + str(tgt), -1) < self.gorder.get(n["id"], 1 << 60):
+                raise Unsupported("backward goto")
+            if tgt not in self.labels:
+                raise Unsupported("goto into a block that does not enclose it")
+            return self.labels[tgt](env)
         if kind == "IfStmt":
             inner = n["inner"]
             c = self.toB(self.ex(inner[0], env))
             th = inner[1]
             el = inner[2] if len(inner) > 2 else {"kind": "NullStmt"}
-            if self.may_return(th) or self.may_return(el):
-                return "(if %s\n then %s\n else %s)" % (c, self.stmt(th, env, k), self.stmt(el, env, k))
+            d0 = set(self.dirty)
+            if self.may_return(th) or self.may_return(el) or self.cfg.get("dup_ifs"):
+                # every path carries its own continuation: the dropped-store bookkeeping is exact per path
+                t1 = self.stmt(th, env, k)
+                d1 = set(self.dirty)
+                self.dirty = set(d0)
+                t2 = self.stmt(el, env, k)
+                self.dirty |= d1
+                return "(if %s\n then %s\n else %s)" % (c, t1, t2)
             vs = []
             self.assigned(th, vs)
             self.assigned(el, vs)
+            loc = [v for v in vs if v not in env]
+            if loc and not self.cfg.get("local_temps"):
+                raise Unsupported("variable '%s' is assigned in one branch of an if without a value before it" % loc[0])
+            vs = self.order([v for v in vs if v in env])
+            envl = {x: y for x, y in env.items()}
             if not vs:
+                # nothing that lives on is assigned: the statement is dropped, but its dropped stores count
+                self.stores_in(th, self.dirty)
+                self.stores_in(el, self.dirty)
                 return k(env)
-            for v in vs:
-                if v not in env:
-                    raise Unsupported("variable '%s' is assigned in one branch of an if without a value before it" % v)
             fin = lambda e: self.tup([e[v][0] if e[v][1] == env[v][1] else (self.toZ(e[v]) if env[v][1] == "Z" else self.toB(e[v])) for v in vs])
-            news = [self.fresh(v.replace("*", "")) for v in vs]
+            news = [self.fresh(v.replace("*", "").replace(".", "_"), env[v][1]) for v in vs]
             env2 = dict(env)
             for v, nm in zip(vs, news):
                 env2[v] = (nm, env[v][1])
-            return "let %s :=\n  (if %s\n   then %s\n   else %s) in\n%s" % (self.pat(news), c, self.stmt(th, env, fin), self.stmt(el, env, fin), k(env2))
+            t1 = self.stmt(th, envl, fin)
+            d1 = set(self.dirty)
+            self.dirty = set(d0)
+            t2 = self.stmt(el, envl, fin)
+            self.dirty |= d1
+            return "let %s :=\n  (if %s\n   then %s\n   else %s) in\n%s" % (self.pat(news), c, t1, t2, k(env2))
         if kind == "ForStmt":
             init, _cv, cond, inc, body = (n["inner"] + [None] * 5)[:5]
             if self.may_return(body):
@@ -336,26 +615,47 @@ class Tr:
             self.assigned(body, vs)
             if iv in vs:
                 raise Unsupported("for-loop body assigns the loop variable")
-            for v in vs:
-                if v not in env:
-                    raise Unsupported("variable '%s' is assigned in a loop body without a value before the loop" % v)
+            loc = [v for v in vs if v not in env]
+            if loc and not self.cfg.get("local_temps"):
+                raise Unsupported("variable '%s' is assigned in a loop body without a value before the loop" % loc[0])
+            vs = self.order([v for v in vs if v in env])
+            # a store dropped anywhere in the body is visible to every read in the body (next iteration)
+            self.stores_in(body, self.dirty)
             ivn = self.fresh(iv)
-            stn = [self.fresh(v.replace("*", "")) for v in vs]
+            stn = [self.fresh(v.replace("*", "").replace(".", "_"), env[v][1]) for v in vs]
             envb = dict(env)
             envb[iv] = (ivn, "Z")
             for v, nm in zip(vs, stn):
                 envb[v] = (nm, env[v][1])
             fin = lambda e: self.tup([e[v][0] if e[v][1] == env[v][1] else (self.toZ(e[v]) if env[v][1] == "Z" else self.toB(e[v])) for v in vs])
             bodyt = self.stmt(body, envb, fin)
-            news = [self.fresh(v.replace("*", "")) for v in vs]
+            news = [self.fresh(v.replace("*", "").replace(".", "_"), env[v][1]) for v in vs]
             env2 = dict(env)
             for v, nm in zip(vs, news):
                 env2[v] = (nm, env[v][1])
             env2[iv] = ("(Z.max %s %s)" % (a, b), "Z")
             if not vs:
                 return k(env2)
+            init = self.tup([env[v][0] for v in vs])
+            if self.cfg.get("lift_loops"):
+                # the body as a definition of its own, abstracted over the outer names it mentions
+                import re
+                toks = set(re.findall(r"[A-Za-z_][A-Za-z0-9_']*", bodyt))
+                bound = set(stn) | {ivn}
+                frees = [(g, t) for (g, t) in self.cfg.get("params", []) if g in toks and g not in bound]
+                outer = [(nm, "bool" if ty == "B" else "Z") for nm, ty in self.lets.items() if nm in toks and nm not in bound
+                         and any(e[0] == nm for e in env.values())]
+                outer.sort(key=lambda x: int(x[0].rsplit("_", 1)[1]))
+                frees += outer
+                sty = " * ".join("bool" if env[v][1] == "B" else "Z" for v in vs)
+                lname = "%s_loop%d" % (self.cfg["lift_loops"], len(self.lifted) + 1)
+                self.lifted.append((lname, "Definition %s %s (st_ : %s) (%s : Z) : %s :=\n  let %s := st_ in\n    %s.\n" % (
+                    lname, " ".join("(%s : %s)" % f for f in frees), sty, ivn, sty, self.pat(stn), bodyt),
+                    [v for v in vs], [f[0] for f in frees]))
+                return "let %s :=\n  fold_left (%s)\n    (zrange %s %s) %s in\n%s" % (
+                    self.pat(news), " ".join([lname] + [f[0] for f in frees]), a, b, init, k(env2))
             return "let %s :=\n  fold_left (fun st_ %s => let %s := st_ in\n    %s)\n    (zrange %s %s) %s in\n%s" % (
-                self.pat(news), ivn, self.pat(stn), bodyt, a, b, self.tup([env[v][0] for v in vs]), k(env2))
+                self.pat(news), ivn, self.pat(stn), bodyt, a, b, init, k(env2))
         raise Unsupported("statement kind %s" % kind)
 
 
@@ -375,6 +675,7 @@ def translate_slice(fn_ast, cfg, start=None, stop=None, final=None):
         if i1 is None:
             raise Unsupported("end of the slice not found")
     tr = Tr(cfg)
+    tr.number(body)
     env = dict(cfg.get("inputs", {}))
     # declarations before the slice may set up aliases (Xstore = X->Store) and plain initialised locals
     for s in stmts[:i0]:
@@ -384,6 +685,22 @@ def translate_slice(fn_ast, cfg, start=None, stop=None, final=None):
                     b = strip(strip(d["inner"][0])["inner"][0])
                     tr.alias[d["name"]] = tr.alias.get(b["referencedDecl"]["name"], b["referencedDecl"]["name"])
     return tr.seq(stmts[i0:i1], env, lambda e: final(tr, e))
+
+
+def decl_order(fn_ast):
+    """the variables of a function in the order of their declaration: cells `*p` / parameters first, then locals"""
+    out = []
+
+    def go(n):
+        if n.get("kind") in ("ParmVarDecl", "VarDecl") and n.get("name"):
+            for nm in (n["name"], "*" + n["name"]):
+                if nm not in out:
+                    out.append(nm)
+        for c in n.get("inner", []):
+            if c:
+                go(c)
+    go(fn_ast)
+    return out
 
 
 def mentions(n, pred):
